@@ -22,13 +22,13 @@ pub fn prop() -> Prop {
 
 fn spec() -> Spec {
     Spec {
-        kinds: vec![Kind { name: "jacobian", quick: 60_000, thorough: 3_000_000, serial: false }],
+        kinds: vec![Kind { name: "jacobian", quick: 300_000, thorough: 8_000_000, serial: false }],
         rule: "each case = non-degenerate 6-DOF robot (64 sign patterns, offsets), bare or in a stack of depth 1..3 from Tool/Base/Frame/Parallelogram, with or without joint limits (a share of the joint vectors sits within the differencing step of a limit) x q x epsilon in {1e-7,1e-6,1e-5}; the Jacobian is reconstructed through torques_from_vector(e_k) and compared column by column with the geometric Jacobian of the reference chain (x base, tool lever arm, coupling matrix for parallelograms); velocities reproduce the twist when cond(J) <= 1e6; torques == J^T F; isometry- and vector-based entry points agree. non-trivial = cond(J) <= 1e6; distinct = hash(robot, stack, q, eps)",
         assumptions: vec![
             "|J - J_geo| <= 5*eps*(1+reach) + 4e-15*(1+reach)/eps (forward-difference truncation + rounding)",
             "J*qdot == x within cond(J)*1e-10*(1+|x|) when cond(J) <= 1e6 (SVD computed in the harness)",
         ],
-        minimums: vec![("oracle_evals", 500_000, 20_000_000), ("well_conditioned", 30_000, 1_500_000), ("near_limit_cases", 5_000, 200_000)],
+        minimums: vec![("oracle_evals", 8_000_000, 200_000_000), ("well_conditioned", 250_000, 6_000_000), ("near_limit_cases", 80_000, 2_000_000)],
     }
 }
 
